@@ -61,6 +61,7 @@ type smrResult struct {
 	Preempt  int    `json:"preempt"`
 	Frees    int    `json:"frees"`
 	Choices  []int  `json:"choices"`
+	Labels   []int  `json:"labels,omitempty"` // yield-point label reached by each step (0 = operation completed)
 	Case     *smrInput `json:"case,omitempty"` // the full generated case, for the corpus
 }
 
@@ -166,6 +167,10 @@ func smrChild(casePath string) {
 			in.Progs = append(in.Progs, prog)
 		}
 	}
+	// the generated case, for a parent that has to explain a crash of this process
+	if gbs, err := json.Marshal(&in); err == nil {
+		os.WriteFile(casePath+".gen", gbs, 0644)
+	}
 	for i, w := range e.ws {
 		if in.Tall {
 			w.VerifSeed(tallSeed((in.Seed + int64(i)*7919) & 0xffffff))
@@ -201,7 +206,12 @@ func smrChild(casePath string) {
 	}
 	// frees happen in Nitro's own free workers: let them catch up after every step so that "freed"
 	// is a deterministic function of the schedule
+	traceFile, _ := os.OpenFile(casePath+".trace", os.O_CREATE|os.O_TRUNC|os.O_WRONLY, 0644)
 	sch.OnStep = func(tid, label int) {
+		if traceFile != nil {
+			// unbuffered: the parent reads it when this process dies
+			fmt.Fprintf(traceFile, "%d %d\n", tid, label)
+		}
 		deadline := time.Now().Add(2 * time.Second)
 		for time.Now().Before(deadline) {
 			fs, fd := atomic.LoadInt64(&hookFreeSent)-e.base[2], atomic.LoadInt64(&hookFreeDone)-e.base[3]
@@ -258,6 +268,7 @@ func smrChild(casePath string) {
 	}
 	for _, s := range sch.Trace {
 		res.Choices = append(res.Choices, s[0])
+		res.Labels = append(res.Labels, s[1])
 	}
 	if sch.stall {
 		res.Bad, res.Sig = "a scheduled goroutine neither reached a yield point nor finished within 20s", "c04-stall"
@@ -294,6 +305,74 @@ func smrChild(casePath string) {
 	res.Case = &full
 	out, _ := json.Marshal(&res)
 	os.Stdout.Write(out)
+}
+
+// smrLateLink reads the step trace a child left behind and reports whether the schedule contains the
+// pattern of known finding D17: a Delete of a key completed while a Put of the same key, already
+// published at level 0, was parked before one of its upper-level link CASes, and that Put then went on
+// (linking a node that its deleter has already handed to the reclamation barrier).
+func smrLateLink(in *smrInput, tracePath string) bool {
+	bs, err := os.ReadFile(tracePath)
+	if err != nil {
+		return false
+	}
+	type st struct{ tid, label int }
+	var tr []st
+	for _, ln := range strings.Split(string(bs), "\n") {
+		var a, b int
+		if n, _ := fmt.Sscanf(ln, "%d %d", &a, &b); n == 2 {
+			tr = append(tr, st{a, b})
+		}
+	}
+	nt := len(in.Progs)
+	opIdx := make([]int, nt)
+	published := make([]int, nt) // step index of the publish CAS of the thread's current put, -1 = none
+	parkedPub := make([]bool, nt)
+	parkedLink := make([]bool, nt)
+	for i := range published {
+		published[i] = -1
+	}
+	type done struct {
+		at  int
+		key string
+	}
+	var dels []done
+	keyOf := func(t int) (string, string) {
+		if t >= nt || opIdx[t] >= len(in.Progs[t]) {
+			return "", ""
+		}
+		o := in.Progs[t][opIdx[t]]
+		return o.Op, fmt.Sprint(o.Bs)
+	}
+	for i, e := range tr {
+		t := e.tid
+		if t >= nt {
+			continue
+		}
+		op, k := keyOf(t)
+		// this step began where the thread was parked before
+		if parkedPub[t] {
+			published[t] = i
+		}
+		if parkedLink[t] && published[t] >= 0 && op == "put" {
+			// the link CAS is performed by this step: was a delete of the key completed since the publish?
+			for _, d := range dels {
+				if d.key == k && d.at > published[t] && d.at < i {
+					return true
+				}
+			}
+		}
+		parkedPub[t] = e.label == skiplist.VerifPtInsPub
+		parkedLink[t] = e.label == skiplist.VerifPtInsLink
+		if e.label == 0 {
+			if op == "del" {
+				dels = append(dels, done{i, k})
+			}
+			opIdx[t]++
+			published[t] = -1
+		}
+	}
+	return false
 }
 
 func smrRun(in *smrInput, tmp string, idx int) (smrResult, string) {
@@ -338,6 +417,25 @@ func init() {
 				sig := "c04-crash"
 				if strings.Contains(fail, "SIGSEGV") || strings.Contains(fail, "fault address") || strings.Contains(fail, "unexpected signal") {
 					sig = "c04-uaf"
+					if gbs, err := os.ReadFile(filepath.Join(tmp, fmt.Sprintf("smr%d.json.gen", i))); err == nil {
+						var full smrInput
+						if json.Unmarshal(gbs, &full) == nil && len(full.Progs) > 0 {
+							full.Choices = nil
+							*in = full
+						}
+					}
+					// the schedule up to the fault, so that the replay is this very run
+					if tbs, err := os.ReadFile(filepath.Join(tmp, fmt.Sprintf("smr%d.json.trace", i))); err == nil && len(in.Choices) == 0 {
+						for _, ln := range strings.Split(string(tbs), "\n") {
+							var a, b int
+							if n, _ := fmt.Sscanf(ln, "%d %d", &a, &b); n == 2 {
+								in.Choices = append(in.Choices, a)
+							}
+						}
+					}
+					if smrLateLink(in, filepath.Join(tmp, fmt.Sprintf("smr%d.json.trace", i))) {
+						sig = "c04-uaf-late-link"
+					}
 				}
 				sink.Fail(idx, "the process died while running the schedule (an access to freed memory faults under the guard allocator): "+fail, sig, in)
 			case res.Bad != "":
